@@ -381,4 +381,127 @@ theorem structOf_perm {kvs1 kvs2 : List (Slot N)} (proto : List (JVal N)) (hp : 
   · intro kv hkv; exact ⟨(hvalid kv hkv).1, fun j _ ho => absurd ho (occ_replicate _ j)⟩
   · exact hd
 
+
+/-- a run of insertions of new, pairwise different, non-nil keys -/
+theorem foldl_ins_inv : ∀ (kvs : List (Slot N)) (sl : List (Slot N)), RH sl → nOcc sl + kvs.length < sl.length →
+    (∀ kv ∈ kvs, kv.1.isNil = false ∧ NewKey sl kv.1) → DistinctKeys kvs →
+    RH (kvs.foldl ins sl) ∧ (kvs.foldl ins sl).length = sl.length ∧ nOcc (kvs.foldl ins sl) = nOcc sl + kvs.length ∧
+      (entries (kvs.foldl ins sl)).Perm (kvs ++ entries sl)
+  | [], sl, hrh, _, _, _ => ⟨hrh, rfl, by simp, by simp⟩
+  | kv :: rest, sl, hrh, hroom, hv, hd => by
+      have h0 := hv kv (List.mem_cons_self ..)
+      simp only [List.length_cons] at hroom
+      obtain ⟨f, _, len', rh', _, _, has', n'⟩ := ins_new hrh (by omega) h0.1 h0.2
+      have pe := ins_entries hrh (by omega) h0.1 h0.2
+      unfold DistinctKeys at hd
+      rw [List.pairwise_cons] at hd
+      have ih := foldl_ins_inv rest (ins sl kv) rh' (by rw [len', n']; omega)
+        (fun kv' hkv' => by
+          have h1 := hv kv' (List.mem_cons_of_mem _ hkv')
+          refine ⟨h1.1, newKey_ins h1.2 has' ?_⟩
+          rw [contentEq_symm_both.1]; exact hd.1 kv' hkv') hd.2
+      simp only [List.foldl_cons, List.length_cons]
+      refine ⟨ih.1, by rw [ih.2.1, len'], by rw [ih.2.2.1, n']; omega, ?_⟩
+      refine ih.2.2.2.trans ?_
+      exact ((List.Perm.append_left rest pe).trans (List.perm_middle)).trans (List.Perm.refl _)
+
+theorem foldl_skip : ∀ (S : List (Slot N)) (st : StructBuild N),
+    S.foldl (fun acc kv => if kv.1.isNil then acc else structPut acc kv.1 kv.2) st =
+      (entries S).foldl (fun acc kv => structPut acc kv.1 kv.2) st
+  | [], st => rfl
+  | a :: l, st => by
+      rw [List.foldl_cons, entries_cons]
+      cases h : a.1.isNil with
+      | true => simp only [if_true]; exact foldl_skip l st
+      | false => simp only [Bool.false_eq_true, if_false, List.foldl_cons]; exact foldl_skip l _
+
+theorem entries_replicate (n : Nat) : entries (List.replicate n (emptySlot : Slot N)) = [] := by
+  unfold entries; simp [List.filter_replicate, emptySlot, JVal.isNil]
+
+/-- announcing more pairs than are put (`janet_struct_begin(c)` with `c` larger than the number of pairs, e.g. after
+    ignored nil values or duplicate keys) changes nothing: `janet_struct_end` rebuilds into the canonical array -/
+theorem structOfCount_eq_structOf {kvs : List (Slot N)} (proto : List (JVal N)) {c : Nat} (hc : kvs.length ≤ c)
+    (hvalid : ∀ kv ∈ kvs, kv.1.isNil = false ∧ kv.2.isNil = false) (hd : DistinctKeys kvs) :
+    structOfCount c kvs proto = structOf kvs proto := by
+  by_cases hcn : c = kvs.length
+  · subst hcn; rfl
+  · have hcap := tablen_gt' (2 * c)
+    have hnew0 : ∀ (m : Nat) (kv : Slot N), NewKey (List.replicate m (emptySlot : Slot N)) kv.1 :=
+      fun m kv j _ ho => absurd ho (occ_replicate _ j)
+    -- first build, at the announced capacity
+    have hb := foldl_structPut kvs (structBegin c) (RH.replicate _) (by simp [structBegin, nOcc_replicate])
+      (by simp [structBegin]; omega) (by simp [structBegin]; omega)
+      (fun kv hkv => ⟨(hvalid kv hkv).1, (hvalid kv hkv).2, hnew0 _ kv⟩) hd
+    have hi := foldl_ins_inv kvs (List.replicate (tablen (2 * c)) emptySlot) (RH.replicate _)
+      (by simp [nOcc_replicate]; omega) (fun kv hkv => ⟨(hvalid kv hkv).1, hnew0 _ kv⟩) hd
+    rw [entries_replicate, List.append_nil] at hi
+    have hE := hi.2.2.2     -- the stored pairs are a permutation of kvs
+    have hvalidE : ∀ kv ∈ entries (kvs.foldl ins (List.replicate (tablen (2 * c)) emptySlot)),
+        kv.1.isNil = false ∧ kv.2.isNil = false := fun kv h => hvalid kv (hE.mem_iff.mp h)
+    have hdE : DistinctKeys (entries (kvs.foldl ins (List.replicate (tablen (2 * c)) emptySlot))) :=
+      (hE.symm.pairwise_iff (fun {a b} h => by rw [contentEq_symm_both.1]; exact h)).mp hd
+    have hlenE := hE.length_eq
+    -- the rebuild
+    have hcap' := tablen_gt' (2 * kvs.length)
+    have hr := foldl_structPut (entries (kvs.foldl ins (List.replicate (tablen (2 * c)) emptySlot))) (structBegin kvs.length)
+      (RH.replicate _) (by simp [structBegin, nOcc_replicate]) (by simp [structBegin]; omega) (by simp [structBegin]; omega)
+      (fun kv hkv => ⟨(hvalidE kv hkv).1, (hvalidE kv hkv).2, hnew0 _ kv⟩) hdE
+    have hperm := build_perm hE (List.replicate (tablen (2 * kvs.length)) emptySlot) (RH.replicate _)
+      (by simp [nOcc_replicate]; omega) (fun kv hkv => ⟨(hvalidE kv hkv).1, hnew0 _ kv⟩) hdE
+    -- the direct build
+    have hs := foldl_structPut kvs (structBegin kvs.length) (RH.replicate _) (by simp [structBegin, nOcc_replicate])
+      (by simp [structBegin]) (by simp [structBegin]; omega)
+      (fun kv hkv => ⟨(hvalid kv hkv).1, (hvalid kv hkv).2, hnew0 _ kv⟩) hd
+    unfold structOf structOfCount
+    rw [hb, hs]
+    have hne : (kvs.length != c) = true := by simp; omega
+    simp only [structBegin, Nat.zero_add] at hr
+    simp only [structEnd, structBegin, Nat.zero_add, hne, if_true, bne_self_eq_false, Bool.false_eq_true, if_false]
+    rw [foldl_skip, hr, hperm]
+
+
+/-- pairs `janet_struct_put` accepts: key and value not nil (NaN keys do not exist in the model's domain) -/
+def validPair (kv : Slot N) : Bool := !kv.1.isNil && !kv.2.isNil
+
+omit [LawfulNum N] in
+theorem structPut_invalid (st : StructBuild N) (kv : Slot N) (h : validPair kv = false) : structPut st kv.1 kv.2 = st := by
+  unfold structPut structPutExt
+  have : (kv.1.isNil || kv.2.isNil) = true := by
+    unfold validPair at h; cases h1 : kv.1.isNil <;> cases h2 : kv.2.isNil <;> simp_all
+  simp only [this, if_true]
+
+omit [LawfulNum N] in
+/-- puts of pairs with a nil key or a nil value are ignored -/
+theorem foldl_structPut_filter : ∀ (raw : List (Slot N)) (st : StructBuild N),
+    raw.foldl (fun acc kv => structPut acc kv.1 kv.2) st = (raw.filter validPair).foldl (fun acc kv => structPut acc kv.1 kv.2) st
+  | [], _ => rfl
+  | kv :: rest, st => by
+      rw [List.foldl_cons, List.filter_cons]
+      cases h : validPair kv with
+      | true => simp only [if_true, List.foldl_cons]; exact foldl_structPut_filter rest _
+      | false => simp only [Bool.false_eq_true, if_false]; rw [structPut_invalid st kv h]; exact foldl_structPut_filter rest st
+
+omit [LawfulNum N] in
+theorem structOfCount_filter (c : Nat) (raw : List (Slot N)) (proto : List (JVal N)) :
+    structOfCount c raw proto = structOfCount c (raw.filter validPair) proto := by
+  unfold structOfCount; rw [foldl_structPut_filter]
+
+/-- **struct layout is canonical, general form**: whatever is announced to `janet_struct_begin` (at least the number of
+    accepted pairs), whatever ignored pairs (nil key or nil value) are interspersed, and in whatever order the accepted
+    pairs (pairwise different keys) are put, the resulting struct is the same value -/
+theorem structOfCount_canonical {raw1 raw2 : List (Slot N)} (proto : List (JVal N)) {c1 c2 : Nat}
+    (hp : (raw1.filter validPair).Perm (raw2.filter validPair)) (hd : DistinctKeys (raw1.filter validPair))
+    (hc1 : (raw1.filter validPair).length ≤ c1) (hc2 : (raw2.filter validPair).length ≤ c2) :
+    structOfCount c1 raw1 proto = structOfCount c2 raw2 proto := by
+  have hv : ∀ (raw : List (Slot N)), ∀ kv ∈ raw.filter validPair, kv.1.isNil = false ∧ kv.2.isNil = false := by
+    intro raw kv h
+    have := (List.mem_filter.mp h).2
+    unfold validPair at this
+    cases h1 : kv.1.isNil <;> cases h2 : kv.2.isNil <;> simp_all
+  have hd2 : DistinctKeys (raw2.filter validPair) :=
+    (hp.pairwise_iff (fun {a b} h => by rw [contentEq_symm_both.1]; exact h)).mp hd
+  rw [structOfCount_filter c1 raw1, structOfCount_filter c2 raw2,
+    structOfCount_eq_structOf proto hc1 (hv raw1) hd, structOfCount_eq_structOf proto hc2 (hv raw2) hd2]
+  exact structOf_perm proto hp (hv raw1) hd
+
 end JanetModel.Value
